@@ -153,7 +153,7 @@ Proof.
   match goal with E : dl s = DPub _ _ PCheck |- _ => rename E into Hd end.
   constructor; rewrite ?F10, ?F11, ?F13; try assumption.
   - intros Hv pos' pep' Hc. destruct (ch s) eqn:E; try congruence. eapply Bsub; eauto.
-  - intros f0 Hf Hg. destruct (dl (check_pub c s p lag)) as [|q lagq phq|] eqn:Ed; try discriminate.
+  - intros f0 Hf Hg. destruct (dl (check_pub c s p lag)) as [|q lagq phq| |] eqn:Ed; try discriminate.
     + destruct phq; try discriminate. cbn in Hf. inv_some Hf.
       destruct (check_pub_penq c s p lag q lagq Hd Ed) as [-> (pos0 & pep0 & Hs)].
       unfold guarded in Hg. destruct (client_like c) eqn:Hv; [eapply Bsub; eauto|].
